@@ -216,8 +216,8 @@ func runC07(rc *RunCtx) {
 				kind = "high-replication"
 			case 6:
 				// a footprint that fits int64 on its own but overflows once added to existing usage
-				maxp = 1
-				size = math.MaxInt64 - int64(rc.Intn(1000))
+				maxp = int64(1 + rc.Intn(3))
+				size = math.MaxInt64/maxp - int64(rc.Intn(1000))
 				kind = "near-max-footprint"
 			}
 			if size == 0 && kind == "plain" {
